@@ -15,6 +15,7 @@ Template syntax.  Everything is ordinary Verus text except directive blocks made
     //@   after /<regex>/                             R2: ... after that line
     //@   let <name> : <type>                         R3: ascribe a type to `let [mut] name =`
     //@   sub <rule> /<regex>/ => <replacement>       R5..R11: logged textual rewrite, must match at least once
+    //@   attr #[verifier::..]                        R1: verifier attribute (rlimit, spinoff_prover) placed before the fn
     //@   nopub                                       drop a leading `pub` (fn moved out of / into a trait impl, R9)
     //@ end
     //@ item <relpath> :: <header> [:: ...]           extract struct/enum/const/type/trait, attributes dropped (R4)
@@ -222,6 +223,10 @@ def expand_fn(src, item_path, subs, log, tline):
         if d == 'nopub':
             if it.vis_start != it.start:
                 edits.append((it.vis_start, it.start - it.vis_start, '', ln))
+        elif d.startswith('attr '):
+            # verifier attribute (solver budget / isolation); no effect on the code
+            edits.append((it.vis_start, 0, d[5:].strip() + ' ', ln))
+            log.append({'rule': 'R1', 'item': name, 'what': 'verifier attribute ' + d[5:].strip()})
         elif d.startswith('ret '):
             nm = d[4:].strip()
             sig = msk[it.start:it.hdr_end]
